@@ -51,7 +51,9 @@ class Peer(threading.Thread):
                     buf += d
                 head, buf = buf.split(b"\r\n\r\n", 1)
                 self.seen.append(head.decode("latin1"))
-                if head.startswith(b"CONNECT"):
+                if b"/fail503" in head.split(b"\r\n")[0]:
+                    c.sendall(b"HTTP/1.1 503 Service Unavailable\r\nContent-Length: 4\r\n\r\nbusy")
+                elif head.startswith(b"CONNECT"):
                     c.sendall(b"HTTP/1.1 200 OK\r\n\r\n")
                 else:
                     c.sendall(b"HTTP/1.1 200 OK\r\nContent-Length: 2\r\nContent-Type: text/plain\r\n" + self.extra + b"\r\nok")
@@ -124,7 +126,7 @@ def one(binary, rec, idx, seed, work, pem):
     opts["proxy-localhost"] = "allow"
     opts["deny-domains"] = "denied\\.test"
     opts["log-level"] = c["level"]
-    opts["log-http"] = c["mode"]
+    opts["log-http"] = "api:url" if c["mode"] == "api-url" else c["mode"]
     def uname(default):
         # the user name stays visible; with these shapes it is, or contains, the very text of the password
         return {"eqUser": secret, "inUser": "svc-" + secret}.get(c["shape"], default)
@@ -210,6 +212,8 @@ def one(binary, rec, idx, seed, work, pem):
             for k, v in opts.items():
                 f.write("%s: %s\n" % (k, "true" if v == "true" else json.dumps(v)))
         args += ["--config-file", cfgp]
+    if c["traffic"] == "site-5xx-then-api":
+        env["GOMAXPROCS"] = "1"       # one scheduler: an object handed back to a pool is the next one handed out
     logp = os.path.join(work, "log%d.txt" % idx)
     res = {"idx": idx, "c": c, "ok": True}
     with open(logp, "wb") as lf:
@@ -245,6 +249,11 @@ def one(binary, rec, idx, seed, work, pem):
                 out.append(http_exchange(("127.0.0.1", addr), ("GET http://%s/p%d HTTP/1.1\r\nHost: %s\r\n%sConnection: close\r\n\r\n" % (target, idx, target, pa)).encode(), tls))
             if t in ("connect", "upstream-error"):
                 out.append(http_exchange(("127.0.0.1", addr), ("CONNECT %s HTTP/1.1\r\nHost: %s\r\n%s\r\n" % (target, target, pa)).encode(), tls))
+            if t == "site-5xx-then-api":
+                # the failing exchange and, right behind it, successful ones answered by the API server
+                for k in range(8):
+                    out.append(http_exchange(("127.0.0.1", addr), ("GET http://%s/fail503-%d HTTP/1.1\r\nHost: %s\r\nConnection: close\r\n\r\n" % (target, k, target)).encode(), tls))
+                    http_exchange(("127.0.0.1", api), ("GET /version?probe=%d HTTP/1.1\r\nHost: x\r\nConnection: close\r\n\r\n" % k).encode())
             if t == "refused":
                 out.append(http_exchange(("127.0.0.1", addr), ("GET http://denied.test/x HTTP/1.1\r\nHost: denied.test\r\n%sConnection: close\r\n\r\n" % pa).encode(), tls))
                 out.append(http_exchange(("127.0.0.1", addr), ("GET http://%s/np HTTP/1.1\r\nHost: %s\r\nProxy-Authorization: Basic %s\r\nConnection: close\r\n\r\n" % (
@@ -289,6 +298,10 @@ def one(binary, rec, idx, seed, work, pem):
                       ("base64", base64.b64encode(s.encode()).decode())]
         if user:
             forms.append(("base64(user:secret)", base64.b64encode(("%s:%s" % (user, s)).encode()).decode()))
+    if c["traffic"] == "site-5xx-then-api":
+        # the dump of the failing exchange is outside the statement ("for successful exchanges"): keep the lines of the
+        # API server's exchanges and the start-up lines
+        sinks["log"] = "\n".join(l for l in sinks["log"].splitlines() if not ("module=proxy" in l and 'response="503' in l))
     res["refusal_line"] = next((l[:200] for l in sinks["log"].splitlines() if "fatal error" in l or l.startswith("Error:")), None)
     for name, text in sinks.items():
         for kind, f in forms:
